@@ -7,7 +7,7 @@
 From Coq Require Import Lia ZifyBool ZifyN ZifyNat.
 From Clvm Require Import Model.Dialect Model.BigStep Model.RefClvm Proofs.RefClvmBasics
   Proofs.IntEncBasics Proofs.RefClvmUnknown Proofs.RefClvmDispatch Proofs.UnknownProofs
-  Proofs.BigStepEquiv.
+  Proofs.BigStepEquiv Proofs.BytesLemmas.
 Open Scope N_scope.
 Arguments check_cost : simpl never.
 
@@ -29,6 +29,65 @@ Proof.
   split.
   - intros b Hb. rewrite forallb_forall in Hs. specialize (Hs _ Hb). cbn in Hs. lia.
   - intros Hcc. congruence.
+Qed.
+
+(* a larger sound executable domain: also unknown operators with the constant cost function
+   (the no-op opcodes), of at most five proper bytes *)
+Definition unknown_const_ok (opc : bytes) : bool :=
+  wf_bytes opc && (length opc <=? 5)%nat && ((last opc 0 / 64) mod 4 =? 0).
+
+Definition dom_const (opc : bytes) (args : list sexp) : bool :=
+  (classic_code opc || unknown_const_ok opc) &&
+  forallb (fun a => match a with Atom b => blen b <? 2147483648 | Cons _ _ => true end) args.
+
+Lemma wf_removelast b : wf_bytes b = true -> wf_bytes (removelast b) = true.
+Proof.
+  induction b as [|x b IH]; [reflexivity|]. intros Hw. rewrite wf_bytes_cons in Hw.
+  apply andb_true_iff in Hw. destruct Hw as [Hx Hb]. destruct b as [|y b]; [reflexivity|].
+  cbn [removelast]. rewrite wf_bytes_cons, Hx. apply IH. exact Hb.
+Qed.
+
+Lemma length_removelast_le {A} (l : list A) : (length (removelast l) <= length l)%nat.
+Proof.
+  induction l as [|x l IH]; [cbn; lia|]. destruct l as [|y l]; [cbn; lia|].
+  cbn [removelast length] in *. lia.
+Qed.
+
+Lemma removelast_length_lt {A} (l : list A) : l <> [] -> (length (removelast l) < length l)%nat.
+Proof.
+  induction l as [|x l IH]; [congruence|]. intros _. destruct l as [|y l]; [cbn; lia|].
+  cbn [removelast length] in *. assert (y :: l <> []) by discriminate. specialize (IH H). lia.
+Qed.
+
+Lemma dom_const_sound : dom_sound dom_const.
+Proof.
+  intros opc args Hd. unfold dom_const in Hd. apply andb_true_iff in Hd. destruct Hd as [Hc Hs].
+  split.
+  - intros b Hb. rewrite forallb_forall in Hs. specialize (Hs _ Hb). cbn in Hs. lia.
+  - intros Hcc m Hm. rewrite Hcc in Hc. cbn [orb] in Hc. unfold unknown_const_ok in Hc.
+    apply andb_true_iff in Hc. destruct Hc as [Hc Hfn]. apply andb_true_iff in Hc. destruct Hc as [Hwf Hlen].
+    assert (Hcf : cost_function_of opc = 0).
+    { unfold cost_function_of. rewrite cost_fn_bits. lia. }
+    intros [[s Hov]|[_ (base & Hb & Hbig)]].
+    + (* no u64 operation of the constant cost function can overflow *)
+      unfold unknown_cost in Hov. rewrite Hcf in Hov.
+      destruct (match opc with [] => true | _ :: _ => starts_ffff opc end); [discriminate|].
+      destruct (u32_from_u8 (removelast opc)) as [mult|]; [|discriminate].
+      unfold unknown_base in Hov. cbn [N.eqb] in Hov. change (0 =? 0) with true in Hov. cbn [bind] in Hov.
+      destruct (check_cost 1 m) as [[]|e] eqn:Ec; cbn [bind] in Hov.
+      * destruct (U32_MAX <? wrapping_mul 1 (mult + 1)); discriminate.
+      * unfold check_cost in Ec. destruct (m <? 1); [|discriminate]. apply Ok_inj in Ec || (injection Ec as <-; discriminate).
+    + rewrite Hcf in Hb. unfold spec_base in Hb. change (0 =? 1) with false in Hb.
+      change (0 =? 2) with false in Hb. change (0 =? 3) with false in Hb. cbv iota in Hb.
+      apply Some_inj in Hb. subst base.
+      pose proof (be_value_bound _ (wf_removelast _ Hwf)) as Hbv.
+      pose proof (length_removelast_le opc) as Hl1.
+      assert (Hl : (length (removelast opc) <= 4)%nat).
+      { destruct opc as [|x opc']; [cbn; lia|].
+        pose proof (removelast_length_lt (x :: opc') ltac:(discriminate)). lia. }
+      assert (Hp : 256 ^ N.of_nat (length (removelast opc)) <= 256 ^ 4).
+      { apply N.pow_le_mono_r; lia. }
+      change (256 ^ 4) with 4294967296 in Hp. unfold two64 in Hbig. lia.
 Qed.
 
 (* ---- keywords: the machine recognises quote / apply / softfork through small_number ---- *)
